@@ -707,6 +707,95 @@ Proof.
   intro H; vm_compute in H; discriminate H.
 Qed.
 
+(** * (D) shallow water on the MODEL of shallow_water.py: explicit_terms (the assembly [Section SWAssembly] of Model/ShallowWater.v
+    that [sw_explicit_terms] instantiates at the concrete operators) + implicit_terms (Model/Implicit.v [sw_implicit_terms]) are the
+    clipped modal div / curl / laplacian of the analysed specification quantities of Model/PrimEqSpec.v (absolute-vorticity flux,
+    pressure with the FULL weight matrix Rm = density ratios + identity, kinetic energy, mass flux of ref + pot), for abstract
+    LINEAR horizontal operators with a diagonal laplacian, in the sense of [C05_primeq_refines_spec].
+    Named exactness hypotheses (table obligations of the plugin): H_sw_pot_clip, H_sw_div_vel. *)
+From Dino Require Import Model.ShallowWater.
+Section C05_sw_model.
+  Context {F : Type} {o : Ops F} {Fc : FieldC o}.
+  Variables W P : Type.
+  Variable toM : (P -> F) -> W -> F.
+  Variable divc curlc : (W -> F) -> (W -> F) -> W -> F.
+  Variable lap clip : (W -> F) -> W -> F.
+  Hypothesis toM_lin : Thm.PrimEq.linear toM.
+  Hypothesis divc_lin : Thm.PrimEq.linear2 divc.
+  Hypothesis lap_lin : Thm.PrimEq.linear lap.
+  Hypothesis clip_lin : Thm.PrimEq.linear clip.
+  Variable N : nat.
+  Variable dens : nat -> F.
+  Variable X : P -> @SWCol F.
+  Variable pot dive : nat -> W -> F.
+  Variable orog : option (W -> F).
+  Variable ref : nat -> F.
+  Variable lam : W -> F.
+  Hypothesis lap_diag : forall x w, lap x w = x w * lam w.
+
+  Theorem C05_sw_model_refines_spec r w :
+    (r < N)%nat ->
+    clip (lap (pot r)) w = lap (pot r) w ->
+    clip (divc (toM (fun p => s_u (X p) r * s_sec2 (X p))) (toM (fun p => s_v (X p) r * s_sec2 (X p)))) w = dive r w ->
+    let imp := sw_implicit_terms (ref r) (lam w) (dive r w, pot r w) in
+    sw_vort_explicit W P toM divc clip X r w + 0
+    = clip (fun w' => - divc (toM (sw_flux_u P X r)) (toM (sw_flux_v P X r)) w') w /\
+    sw_div_explicit W P toM curlc lap clip N dens X pot orog r w + fst imp
+    = clip (fun w' => curlc (toM (sw_flux_u P X r)) (toM (sw_flux_v P X r)) w'
+                      - lap (fun w2 => sumn N (fun j => sw_Rm dens r j * pot j w2) + sw_orog0 W orog w2 + toM (sw_kin P X r) w2) w') w /\
+    sw_pot_explicit W P toM divc clip X r w + snd imp
+    = clip (fun w' => - divc (toM (sw_mass_u P X ref r)) (toM (sw_mass_v P X ref r)) w') w.
+  Proof. exact (sw_model_refines_spec W P toM divc curlc lap clip toM_lin divc_lin lap_lin clip_lin N dens X pot dive orog ref lam lap_diag r w). Qed.
+
+  (** PARTIAL.  Full statement wanted: a state whose nodal fields are the balanced zonal jet of [C05_sw_polynomial_jet_steady] has zero
+      total tendency.  Proved: under the exactness obligations H_sw_jet_vort / H_sw_jet_div / H_sw_jet_pot (the clipped modal operators
+      on the analysed nodal specification quantities vanish, as the continuous operators do on the continuous jet by
+      [C05_sw_polynomial_jet_steady]) the model's explicit + implicit tendency is zero.  Missing: the evaluation homomorphism from the
+      differential ring to nodal values and alias-freeness on the jet's products (checked numerically as table obligations). *)
+  Theorem C05_sw_model_jet_steady_partial r w :
+    (r < N)%nat ->
+    clip (lap (pot r)) w = lap (pot r) w ->
+    clip (divc (toM (fun p => s_u (X p) r * s_sec2 (X p))) (toM (fun p => s_v (X p) r * s_sec2 (X p)))) w = dive r w ->
+    clip (fun w' => - divc (toM (sw_flux_u P X r)) (toM (sw_flux_v P X r)) w') w = 0 ->
+    clip (fun w' => curlc (toM (sw_flux_u P X r)) (toM (sw_flux_v P X r)) w'
+                    - lap (fun w2 => sumn N (fun j => sw_Rm dens r j * pot j w2) + sw_orog0 W orog w2 + toM (sw_kin P X r) w2) w') w = 0 ->
+    clip (fun w' => - divc (toM (sw_mass_u P X ref r)) (toM (sw_mass_v P X ref r)) w') w = 0 ->
+    let imp := sw_implicit_terms (ref r) (lam w) (dive r w, pot r w) in
+    sw_vort_explicit W P toM divc clip X r w + 0 = 0 /\
+    sw_div_explicit W P toM curlc lap clip N dens X pot orog r w + fst imp = 0 /\
+    sw_pot_explicit W P toM divc clip X r w + snd imp = 0.
+  Proof. exact (sw_model_jet_steady_partial W P toM divc curlc lap clip toM_lin divc_lin lap_lin clip_lin N dens X pot dive orog ref lam lap_diag r w). Qed.
+End C05_sw_model.
+
+(** non-vacuity of the shallow-water hypotheses: one coefficient / one node over Qc, to_modal = clip = identity, div(x,y) = x + y,
+    laplacian = multiplication by -2, two layers with densities 1 and 3/2: the hypotheses hold and both implicit terms are non-zero *)
+Definition sw_ex_col : @SWCol Qc :=
+  mkSWCol (q3 [1#3; -(1#2)]%Q) (q3 [1#5; 1#7]%Q) (q3 [2#3; 1#4]%Q) (q3 [3#2; 5#4]%Q) (Q2Qc (4#3)) (Q2Qc (1#2)).
+Example C05_sw_model_hyps_satisfiable :
+  let X := fun _ : unit => sw_ex_col in
+  let pot := fun (k : nat) (_ : unit) => q3 [3#2; 5#4]%Q k in
+  let dive := fun (k : nat) (_ : unit) => s_u sw_ex_col k * s_sec2 sw_ex_col + s_v sw_ex_col k * s_sec2 sw_ex_col in
+  let lam := fun _ : unit => Q2Qc (-(2#1)) in
+  Thm.PrimEq.linear tI /\ Thm.PrimEq.linear2 tD /\ Thm.PrimEq.linear tL /\
+  (forall x w, tL x w = x w * lam w) /\
+  (forall r w, tI (tL (pot r)) w = tL (pot r) w) /\
+  (forall r w, tI (tD (tI (fun p => s_u (X p) r * s_sec2 (X p))) (tI (fun p => s_v (X p) r * s_sec2 (X p)))) w = dive r w) /\
+  fst (sw_implicit_terms (Q2Qc (7#10)) (lam tt) (dive 1%nat tt, pot 1%nat tt)) <> 0 /\
+  snd (sw_implicit_terms (Q2Qc (7#10)) (lam tt) (dive 1%nat tt, pot 1%nat tt)) <> 0 /\
+  sw_Rm (q3 [1; 3#2]%Q) 1 0 <> 0.
+Proof.
+  cbv zeta.
+  split; [split; [intros x y H b; apply H | intros; unfold tI; cbn; ring]|].
+  split; [split; [intros x1 y1 x2 y2 H1 H2 b; unfold tD; now rewrite H1, H2 | intros; unfold tD; cbn; ring]|].
+  split; [split; [intros x y H b; unfold tL; now rewrite H | intros; unfold tL; cbn; ring]|].
+  split; [intros x []; unfold tL; cbn; ring|].
+  split; [intros r w; reflexivity|].
+  split; [intros r w; reflexivity|].
+  split; [intro H; vm_compute in H; discriminate H|].
+  split; [intro H; vm_compute in H; discriminate H|].
+  intro H; vm_compute in H; discriminate H.
+Qed.
+
 Print Assumptions C05_rest_isothermal_steady.
 Print Assumptions C05_primeq_column_refines_spec.
 Print Assumptions C05_primeq_column_refines_spec_moist.
@@ -734,3 +823,6 @@ Print Assumptions C05_model_is_source.
 Print Assumptions C05_gen_primeq_complete.
 Print Assumptions C05_whole_state_rest_isothermal_steady.
 Print Assumptions C05_whole_state_rest_hyps_satisfiable.
+Print Assumptions C05_sw_model_refines_spec.
+Print Assumptions C05_sw_model_jet_steady_partial.
+Print Assumptions C05_sw_model_hyps_satisfiable.
